@@ -147,7 +147,8 @@ def data_file(g, meta, pkgname):
     for k, (nt, noeoi) in enumerate(g["inputs"]):
         fn = "Parse" + (meta["sym_ids"][symid[nt]] if multi else "")
         cases.append("\tcase %d:\n\t\treturn p.%s(l)" % (k, fn))
-    lines.append("func verifParse(p *Parser, l *Lexer, input int) error {\n\tswitch input {\n%s\n\t}\n\tpanic(\"bad input index\")\n}" % "\n".join(cases))
+    if not g.get("nocommonparse"):
+        lines.append("func verifParse(p *Parser, l *Lexer, input int) error {\n\tswitch input {\n%s\n\t}\n\tpanic(\"bad input index\")\n}" % "\n".join(cases))
     if meta.get("has_listener"):
         lines.append("func verifInit(p *Parser) {\n\tverifEvents = nil\n\tp.Init(func(t NodeType, s, e int) { verifListen(int(t), s, e) })\n}")
     else:
